@@ -204,16 +204,52 @@ class Plan:
         filler = next(f for f in FILLERS if f != dest)
         glob_kv = [pick(om["cfg"][rec["g"]])] if rec["g"] != UNSET else []
         secs: list[tuple[list[str], list[tuple[str, Any]]]] = []
-        for pat, val in rec["s"]:
-            if val != UNSET:
-                kv = [pick(om["cfg"][val])]
-            else:
-                kv = [(filler, True)] if (not plain and rnd.random() < 0.5) else []
-            # adjacent sections with identical settings may share one header (PATTERN1,PATTERN2)
-            if secs and secs[-1][1] == kv and not plain and rnd.random() < 0.5:
-                secs[-1][0].append(pat)
-            else:
-                secs.append(([pat], kv))
+        # pyproject.toml only, a deterministic half (by salt) of the configurations with >= 2 sections: the TOML format lets one
+        # module be named by several [[tool.mypy.overrides]] tables whose settings are merged.  Consecutive
+        # sections are grouped into ONE list-valued table `module = [A, B, ..]` (carrying at most a filler
+        # setting common to all of them) and each section's own setting of the observed option follows in a
+        # LATER table that names the module again -- alone, or in a list with the other sections of the same
+        # value.  per_module_options keeps first-appearance order, so the section order of the model is kept.
+        self.split = (fmt == "toml" and not plain and len(rec["s"]) >= 2
+                      and random.Random(salt ^ 0x5BD1E995).random() < 0.5)   # (independent of the format rotation)
+        self.later_tables = 0
+        if self.split:
+            later: list[tuple[list[str], list[tuple[str, Any]]]] = []
+            items = list(rec["s"])
+            k = 0
+            while k < len(items):
+                size = min(len(items) - k, rnd.choice((2, 2, 3, 4)))
+                group = items[k:k + size]
+                k += size
+                if len(group) == 1:
+                    pat, val = group[0]
+                    secs.append(([pat], [pick(om["cfg"][val])] if val != UNSET else []))
+                    continue
+                secs.append(([p_ for p_, _ in group], [(filler, True)] if rnd.random() < 0.5 else []))
+                byval: dict[str, list[str]] = {}
+                for pat, val in group:
+                    if val != UNSET:
+                        byval.setdefault(val, []).append(pat)
+                for val, pats in byval.items():
+                    kvp = pick(om["cfg"][val])
+                    if len(pats) > 1 and rnd.random() < 0.5:
+                        later.append((list(pats), [kvp]))          # overlapping list-valued table
+                    else:
+                        later += [([p_], [kvp]) for p_ in pats]    # single-module tables
+            rnd.shuffle(later)
+            self.later_tables = len(later)
+            secs += later
+        else:
+            for pat, val in rec["s"]:
+                if val != UNSET:
+                    kv = [pick(om["cfg"][val])]
+                else:
+                    kv = [(filler, True)] if (not plain and rnd.random() < 0.5) else []
+                # adjacent sections with identical settings may share one header (PATTERN1,PATTERN2)
+                if secs and secs[-1][1] == kv and not plain and rnd.random() < 0.5:
+                    secs[-1][0].append(pat)
+                else:
+                    secs.append(([pat], kv))
         self.text = render_config(fmt, glob_kv, secs, rnd)
         self.cmd = list(pick(om["cmd"][rec["c"]])) if rec["c"] != UNSET else []
         self.cmd_first = (not plain) and rnd.random() < 0.5
@@ -315,6 +351,22 @@ def replay_plan(plan: Plan, wdir: str, inline_seq: list[str], idx: int) -> dict[
                 res["viol"].append({"m": m, "i": inl, "got": got, "doc": doc, "imp": imp})
             elif got != imp:
                 res["drift"].append("module %s inline %s: real %r = doc, model impl %r" % (m, inl, got, imp))
+    # a pyproject.toml whose tables name a module more than once must mean what the plain mypy.ini rendering
+    # of the same configuration means (real vs real)
+    if getattr(plan, "split", False):
+        res["split"] = 1
+        res["later"] = plan.later_tables
+        twin = Plan(rec, om, "ini", 0, plain=True)
+        o2, c2, _ = real_options(twin, wdir)
+        if o2 is None or c2:
+            res["drift"].append("ini twin of a split pyproject not accepted: %s" % c2)
+        else:
+            for m in MODS:
+                a, b = getattr(options.clone_for_module(m), dest), getattr(o2.clone_for_module(m), dest)
+                res["evals"] += 1
+                if a != b:
+                    res["viol"].append({"m": m, "i": UNSET, "got": a, "doc": b, "imp": real[rec["imp"][0][MODS.index(m)]],
+                                        "via": "toml-vs-ini"})
     # projection of the real state on the specification's variables
     cache = getattr(options, "_per_module_cache") or {}
     got_cache = [[k, getattr(val, dest)] for k, val in cache.items()]
@@ -344,7 +396,7 @@ def _wreplay(task: tuple[list[Any], list[str]]) -> list[Any]:
         if r["viol"] or r["drift"] or r["complaint"]:
             out.append((idx, om["dest"], fmt, salt, r))
         else:
-            out.append((idx, None, None, None, {"evals": r["evals"]}))
+            out.append((idx, None, None, None, {"evals": r["evals"], "split": r.get("split", 0), "later": r.get("later", 0)}))
     return out
 
 
@@ -1137,13 +1189,15 @@ def main(argv: list[str]) -> int:
     ctx = multiprocessing.get_context("fork")
     nproc = min(16, os.cpu_count() or 4)
     t1 = time.time()
-    replayed = evals = 0
+    replayed = evals = n_split = n_later = 0
     bad: list[Any] = []
     with ctx.Pool(nproc, initializer=_winit, initargs=(root,)) as pool:
         for out in pool.imap_unordered(_wreplay, work):
             for ridx, dest, fmt, salt, r in out:
                 replayed += 1
                 evals += r["evals"]
+                n_split += r.get("split", 0)
+                n_later += 1 if r.get("later", 0) else 0
                 if dest is not None:
                     bad.append((ridx, dest, fmt, salt, r))
         t_replay = time.time() - t1
@@ -1322,6 +1376,7 @@ def main(argv: list[str]) -> int:
         "configurations_exhaustive": n_exh, "configurations_with_4_sections": n4,
         "configurations_3_values": len(recs3v), "configurations_second_alphabet": len(recsB),
         "replays_process_options": replayed, "value_comparisons": evals,
+        "replays_pyproject_list_valued_tables": n_split, "replays_pyproject_module_named_again_by_later_table": n_later,
         "real_builds": builds, "real_build_module_comparisons": build_evals,
         "command_line_runs": cli_runs, "command_line_module_comparisons": cli_evals,
         "equivalence_settings": len(settings), "equivalence_runs": eq_runs, "equivalence_comparisons": eq_pairs,
